@@ -78,6 +78,7 @@ class Trace:
         auth_tick_pending = set()
         hash_state = {}
         pre_pending, pre_published = {}, {}
+        quick_session, frames_since_disconnect = {}, {}
         tickrecv = {}
         emitted = {}           # seq -> dict(ty, mode, step, connected, ent)
         stamps = {}            # (client, seq) -> stamp of the message sent to that client
@@ -115,6 +116,7 @@ class Trace:
             if t[0] == "cop" and t[2] == "prespawn":
                 pre_pending.setdefault(int(t[1]), []).append(int(t[3]))
             if t[0] == "cframe":
+                frames_since_disconnect[int(t[1])] = frames_since_disconnect.get(int(t[1]), 0) + 1
                 pre_published.setdefault(int(t[1]), set()).update(pre_pending.pop(int(t[1]), []))
             if t[0] == "cop" and t[2] == "despawn":
                 pre_dead_pending.setdefault(int(t[1]), []).append(int(t[3]))
@@ -181,6 +183,8 @@ class Trace:
                 c = int(t[1])
                 if c not in connected:
                     connected[c] = True
+                    # C09's premise: the client ran at least one frame between two sessions (otherwise it never notices)
+                    quick_session[c] = frames_since_disconnect.get(c, 1) == 0
                     if cfg.get("auth", "none") == "none":
                         authorized.add(c)
                         auth_tick_pending.add(c)
@@ -195,6 +199,8 @@ class Trace:
                     auth_tick_pending.add(c)
             elif t[0] == "disconnect":
                 c = int(t[1])
+                if c in connected:
+                    frames_since_disconnect[c] = 0
                 connected.pop(c, None)
                 authorized.discard(c)
                 auth_tick_pending.discard(c)
@@ -235,6 +241,11 @@ class Trace:
                         continue
                     if op[0] == "unrel":
                         follows.pop(int(op[1]), None)
+                        continue
+                    if op[0] == "premap":
+                        c_, e_, pc_ = int(op[1]), int(op[2]), int(op[3])
+                        if c_ in connected and pc_ in pre_published.get(c_, ()) and e_ in spec_marked:
+                            maps[(c_, e_)] = pc_
                         continue
                     if op[0] == "map":
                         c_, e_, pc_ = int(op[1]), int(op[2]), int(op[3])
@@ -458,6 +469,11 @@ class Trace:
                             continue
                         if delivered[key] > 1:
                             self.add("C05", i, "event %d delivered %d times to client %d" % (sq, delivered[key], c))
+                        if em["connected"].get(c) != sess_id.get(c) and not quick_session.get(c):
+                            why_ = ("event %d was written during %s of client %d but is handed to its game logic in its current session"
+                                    % (sq, "an earlier session" if c in em["connected"] else "a time it was not connected", c))
+                            self.add("C09", i, why_)
+                            self.add("C05", i, why_)
                         st_ = stamps.get((c, sq))
                         if ty != "SEI" and st_ is not None and c in upd_sent and st_ in upd_sent[c] and upd_applied[c] <= upd_sent[c].index(st_):
                             self.add("C04", i, "event %d handed to client %d logic before the update message of tick %d it depends on was applied" % (sq, c, st_))
